@@ -433,9 +433,32 @@ func emitCase(id string, kind string, r *tbl.Raw, p *plan, qs []string) int {
 	return len(qs) + len(trace)
 }
 
+// fixedCases: the histories of the Examples / refuted theorems of coq/c09/C09Theorems.v, on the real code.
+func fixedCases(rng *hx.Rng) int {
+	total := 0
+	// ex_tb built by ex_ctts_calls / ex_stsc_calls (3 calls each)
+	r := &tbl.Raw{SttsC: []uint32{3, 1, 3}, SttsD: []uint32{10, 20, 5}, HasCtts: true, CttsMode: 'A', CttsVer: 1,
+		CttsC: []uint32{2, 5}, CttsO: []int32{0, -3}, StscMode: 'A', Stsc: [][3]uint32{{1, 2, 1}, {3, 3, 2}},
+		Number: 7, Sizes: []uint32{4, 5, 6, 7, 8, 9, 10}, OffKind: 'S', Offs: []uint64{100, 200, 300},
+		HasStss: true, Stss: []uint32{1, 5}, HasSdtp: true, Sdtp: []byte{0, 16, 32, 64, 4, 8, 1}}
+	p := &plan{CttsCalls: []cttsCall{{[]uint32{2}, []int32{0}}, {nil, nil}, {[]uint32{5}, []int32{-3}}},
+		StscCalls: []stscCall{{Kind: 'a', E: [3]uint32{1, 2, 2}}, {Kind: 's', X: 1}, {Kind: 'a', E: [3]uint32{3, 3, 2}}},
+		Modes: [5]byte{'L', 'L', 'L', 'L', 'L'}}
+	qs := queriesOf(rng, r, tbl.Expand(r), qopt{intervals: true, sampleData: true, outOfRange: true, maxAllPairs: 16})
+	total += emitCase("w-ex-histories", "V", r, p, qs)
+	// C09_builder_stsc_zero_id_refuted: AddEntry(4, 1, 0) after entries with ids 1, 2
+	r2 := &tbl.Raw{SttsC: []uint32{6}, SttsD: []uint32{10}, StscMode: 'A', Stsc: [][3]uint32{{1, 2, 1}, {3, 1, 2}, {4, 1, 0}},
+		Number: 6, Sizes: []uint32{1, 2, 3, 4, 5, 6}, OffKind: 'S', Offs: []uint64{100, 200, 300, 400}}
+	p2 := &plan{StscCalls: []stscCall{{Kind: 'a', E: [3]uint32{1, 2, 1}}, {Kind: 'a', E: [3]uint32{3, 1, 2}},
+		{Kind: 'a', E: [3]uint32{4, 1, 0}}}, Modes: [5]byte{'L', 'L', 'L', 'L', 'L'}}
+	qs2 := queriesOf(rng, r2, tbl.Expand(r2), qopt{intervals: true, sampleData: true, outOfRange: true, maxAllPairs: 16})
+	total += emitCase("w-zero-id", "M", r2, p2, qs2)
+	return total
+}
+
 func corr(seed uint64, n int) {
 	rng := hx.NewRng(seed)
-	total := 0
+	total := fixedCases(hx.NewRng(5))
 	for i := 0; i < n; i++ {
 		r := tbl.Gen(rng, tbl.DefaultOpt)
 		x := tbl.Expand(r)
@@ -675,6 +698,21 @@ func search(seed uint64, n int) {
 	w2 := &tbl.Raw{SttsC: []uint32{6}, SttsD: []uint32{10}, StscMode: 'D', Stsc: [][3]uint32{{1, 2, 1}, {3, 1, 2}},
 		Number: 6, Sizes: []uint32{1, 2, 3, 4, 5, 6}, OffKind: 'S', Offs: []uint64{100, 200, 300, 400}}
 	searchTable(rng, w2, true)
+	// C09_builder_stsc_zero_id_refuted on the real code: AddEntry does not look at the description id
+	{
+		b := &mp4.StscBox{}
+		_ = b.AddEntry(1, 2, 1)
+		_ = b.AddEntry(3, 1, 2)
+		err := b.AddEntry(4, 1, 0)
+		evals++
+		if err == nil && hx.Try(func() { _ = b.GetSampleDescriptionID(4) }) != "" {
+			r := &tbl.Raw{SttsC: []uint32{6}, SttsD: []uint32{10}, StscMode: 'A', Stsc: [][3]uint32{{1, 2, 1}, {3, 1, 2}, {4, 1, 0}},
+				Number: 6, Sizes: []uint32{1, 2, 3, 4, 5, 6}, OffKind: 'S', Offs: []uint64{100, 200, 300, 400}}
+			curPlan = "N;E/a1.2.1/a3.1.2/a4.1.0;LLLLL"
+			fail("StscBox.AddEntry", "zero-description-id-accepted", r, "sd:4", "panic (AddEntry(4,1,0) returned nil)",
+				"an error from AddEntry (DecodeStscSR refuses id 0)")
+		}
+	}
 	for i := 0; i < n; i++ {
 		r := tbl.Gen(rng, tbl.DefaultOpt)
 		searchTable(rng, r, i%16 == 0)
